@@ -147,7 +147,7 @@ class Ctx:
         with open(tmp, "w") as fh:
             json.dump(ev, fh, indent=1, default=str)
         os.replace(tmp, os.path.join(EVID, "%s.json" % self.pid))
-        if rc == 0:
+        if rc == 0 and not os.environ.get("VERIF_KEEP"):
             shutil.rmtree(self.work, ignore_errors=True)
         print("%s %s: %s  evaluations=%d distinct=%d states=%d traces=%d wall=%.1fs"
               % (self.pid, self.tier, "PASS" if rc == 0 else "FAIL", self.evaluations, len(self.distinct),
